@@ -123,7 +123,11 @@ Report ==
     conc_bad    |-> [k \in DOMAIN First(ConcBad, 10) |-> [line |-> First(ConcBad, 10)[k], q |-> Log[First(ConcBad, 10)[k]].q,
                                                           req |-> ReqOf(Log[First(ConcBad, 10)[k]])]],
     nconc_bad   |-> Cardinality(ConcBad),
-    sample      |-> [k \in DOMAIN First(Granted, 2) |-> Describe(First(Granted, 2)[k])] ]
+    sample      |-> LET S1 == {j \in Granted : Log[j.i].q.fam = "sweep" /\ Len(Log[j.i].q.outs) > 1}
+                        S2 == {j \in Granted : Log[j.i].q.fam = "htlc"}
+                        S3 == {j \in Judged : ~j.ok /\ Cardinality(j.rules) = 1}
+                        pick == First(S1, 1) \o First(S2, 1) \o First(S3, 1) IN
+                    [k \in DOMAIN pick |-> Describe(pick[k])] ]
 
 ASSUME JsonSerialize(IOEnv.SWEEP_REPORT, Report)
 =============================================================================
